@@ -29,9 +29,15 @@ pub enum Kind {
 
 #[derive(Clone, Debug, Default)]
 pub struct Alpha {
-    pub srcs: Vec<Id>,
-    pub src_incs: Vec<u16>,
+    /// (sender identity, sender incarnation, carries the payload menu?)
+    pub srcs: Vec<(Id, u16, bool)>,
     pub kinds: Vec<Kind>,
+    /// kinds that get the non-empty payloads (empty = all piggybacking kinds)
+    pub payload_kinds: Vec<Kind>,
+    /// also offer datagrams whose sender bears the instance's own address
+    pub own_addr_srcs: bool,
+    /// offer already-delivered suspicion timeouts again (duplicates)
+    pub redeliver_suspect_timers: bool,
     /// update lists carried by piggybacking datagrams (include `vec![]`)
     pub payloads: Vec<Vec<Member<Id>>>,
     /// single updates about the *current own identity* at incarnation
@@ -197,27 +203,28 @@ impl Spec for CoreSpec {
                 dsts.push(Id { gen: g as u8, ..me });
             }
         }
-        for (si, src) in a.srcs.iter().enumerate() {
-            if src.addr == me.addr {
+        let empty: Vec<Member<Id>> = vec![];
+        for (si, (src, inc, with_payloads)) in a.srcs.iter().enumerate() {
+            if src.addr == me.addr && !a.own_addr_srcs {
                 continue;
             }
-            for inc in &a.src_incs {
-                for kind in &a.kinds {
-                    for (di, dst) in dsts.iter().enumerate() {
+            for kind in &a.kinds {
+                for (di, dst) in dsts.iter().enumerate() {
+                    let gets_payloads = *with_payloads && di == 0 && (a.payload_kinds.is_empty() || a.payload_kinds.contains(kind));
+                    if gets_payloads {
                         for p in &payloads {
-                            if di > 0 && !p.is_empty() {
-                                continue;
-                            }
                             if let Some(e) = self.data(*src, *inc, *dst, *kind, p, &[], &snap) {
                                 evs.push(e);
                             }
                         }
+                    } else if let Some(e) = self.data(*src, *inc, *dst, *kind, &empty, &[], &snap) {
+                        evs.push(e);
                     }
-                    if si == 0 && *inc == a.src_incs[0] {
-                        for it in &a.items {
-                            if let Some(e) = self.data(*src, *inc, me, *kind, &[], std::slice::from_ref(it), &snap) {
-                                evs.push(e);
-                            }
+                }
+                if si == 0 {
+                    for it in &a.items {
+                        if let Some(e) = self.data(*src, *inc, me, *kind, &[], std::slice::from_ref(it), &snap) {
+                            evs.push(e);
                         }
                     }
                 }
@@ -232,6 +239,14 @@ impl Spec for CoreSpec {
             }
         }
         evs.extend(a.api.iter().cloned());
+        if a.redeliver_suspect_timers {
+            // duplicates of suspicion timeouts that were already delivered
+            for t in node.mon.c11.issued.keys() {
+                if !node.timers.iter().any(|(_, k)| k == t) {
+                    evs.push(Ev::Timer(*t));
+                }
+            }
+        }
         for d in &a.change_gens {
             let g = me.gen as i16 + *d as i16;
             if (0..=255).contains(&g) {
